@@ -598,6 +598,140 @@ func c20Run(t *testing.T, in c20In) c20Obs {
 	return c20RunDirect(in)
 }
 
+// ---------------------------------------------------------------- group "join"
+//
+// A watcher created late (ObjectRegistry.NewWatcher on a non-empty registry) and, when
+// Overlap is set, while ObjectRegistry.applyConfig runs in another goroutine: NewWatcher is
+// parked inside its (caller-supplied) filter, the next snapshot is applied meanwhile. The
+// registry must serialise the two: everything the new watcher was not told in its first event
+// has to reach it as a later event. On correct code applyConfig simply blocks until NewWatcher
+// returns; the bounded wait below can only make the run MISS an overlap, never invent one.
+
+type c20JoinIn struct {
+	Names   int        `json:"names"`
+	Kinds   [][2]int   `json:"kinds"`
+	Steps   [][][3]int `json:"steps"`
+	Join    int        `json:"join"`    // NewWatcher starts when this many snapshots have been applied
+	W       int        `json:"w"`       // its filter: 0 business controllers, 1 traffic gates + pipelines
+	Overlap bool       `json:"overlap"` // try to apply snapshot number Join while NewWatcher is running
+}
+
+type c20JoinStep struct {
+	Ev   [][]int `json:"ev"`   // event delivered to the new watcher by this snapshot: (class, name, kind, v)
+	Ents [][]int `json:"ents"` // watcher.Entities() afterwards: (name, kind, v)
+}
+
+type c20JoinObs struct {
+	First    [][]int       `json:"first"` // the first event (creates)
+	Steps    []c20JoinStep `json:"steps"` // snapshots Join .. end
+	Parked   bool          `json:"parked"`
+	InWindow bool          `json:"inwindow"` // snapshot Join completed while NewWatcher was still parked
+}
+
+func c20RunJoin(in c20JoinIn) (obs c20JoinObs) {
+	s := &Supervisor{options: &option.Options{}}
+	or := &ObjectRegistry{super: s, entities: map[string]*ObjectEntity{}, watchers: map[string]*ObjectEntityWatcher{}}
+	s.objectRegistry = or
+	pre := or.NewWatcher("c20-pre", FilterCategory(CategoryAll)) // a watcher that is already registered
+	drainPre := func() {
+		for len(pre.eventChan) > 0 {
+			<-pre.eventChan
+		}
+	}
+	drainPre()
+	if in.Join > len(in.Steps) {
+		in.Join = len(in.Steps)
+	}
+	for t := 0; t < in.Join; t++ {
+		or.applyConfig(c20Config(in.Steps[t]))
+		drainPre()
+	}
+	base := FilterCategory(CategoryBusinessController)
+	if in.W == 1 {
+		base = FilterCategory(CategoryTrafficGate, CategoryPipeline)
+	}
+	var once sync.Once
+	entered, release := make(chan struct{}), make(chan struct{})
+	filter := func(e *ObjectEntity) bool {
+		if in.Overlap {
+			once.Do(func() {
+				close(entered)
+				<-release
+			})
+		}
+		return base(e)
+	}
+	result := make(chan *ObjectEntityWatcher, 1)
+	go func() { result <- or.NewWatcher("c20-join", filter) }()
+	var w *ObjectEntityWatcher
+	next := in.Join
+	select {
+	case w = <-result:
+		close(release) // the registry was empty: the filter was never called; disarm it
+	case <-entered:
+		obs.Parked = true
+		if next < len(in.Steps) {
+			done := make(chan struct{})
+			go func() {
+				or.applyConfig(c20Config(in.Steps[next]))
+				close(done)
+			}()
+			select {
+			case <-done:
+				obs.InWindow = true
+			case <-time.After(4 * time.Millisecond):
+			}
+			close(release)
+			w = <-result
+			<-done
+			next++
+		} else {
+			close(release)
+			w = <-result
+		}
+	}
+	drainPre()
+	take := func() *ObjectEntityWatcherEvent {
+		select {
+		case ev := <-w.eventChan:
+			return ev
+		default:
+			return nil
+		}
+	}
+	obs.First = c20EventRows(take())
+	obs.Steps = []c20JoinStep{}
+	if next > in.Join { // the overlapped snapshot
+		obs.Steps = append(obs.Steps, c20JoinStep{Ev: c20EventRows(take()), Ents: c20EntsRows(w.Entities())})
+	}
+	for t := next; t < len(in.Steps); t++ {
+		or.applyConfig(c20Config(in.Steps[t]))
+		drainPre()
+		obs.Steps = append(obs.Steps, c20JoinStep{Ev: c20EventRows(take()), Ents: c20EntsRows(w.Entities())})
+	}
+	return
+}
+
+func c20GenJoin(r *vfRand, adv bool, tier string) c20JoinIn {
+	base := c20Gen(r, adv, tier)
+	in := c20JoinIn{Names: base.Names, Kinds: base.Kinds, Steps: base.Steps}
+	in.W = r.Intn(2)
+	in.Overlap = !r.Chance(1, 4)
+	// join preferably right after a non-empty snapshot that is followed by a different one
+	cands := []int{}
+	for t := 1; t < len(in.Steps); t++ {
+		if len(in.Steps[t-1]) > 0 && fmt.Sprint(in.Steps[t-1]) != fmt.Sprint(in.Steps[t]) {
+			cands = append(cands, t)
+		}
+	}
+	if len(cands) > 0 && !r.Chance(1, 6) {
+		in.Join = cands[r.Intn(len(cands))]
+	} else {
+		in.Join = r.Range(0, len(in.Steps))
+	}
+	return in
+}
+
 // ---------------------------------------------------------------- generator
 
 var c20BizKinds = []int{0, 1}
@@ -719,6 +853,14 @@ func TestVerifC20(t *testing.T) {
 		out.Emit(vfCase{ID: sc.ID, Src: sc.Src, Grp: "sup", In: in, Obs: c20Run(t, in)})
 		out.w.Flush() // a panic escaping in a goroutine kills the binary: keep what was observed so far
 	}
+	for _, sc := range vfStored("join") {
+		var in c20JoinIn
+		if err := json.Unmarshal(sc.In, &in); err != nil {
+			t.Fatalf("c20: stored case %s: %v", sc.ID, err)
+		}
+		out.Emit(vfCase{ID: sc.ID, Src: sc.Src, Grp: "join", In: in, Obs: c20RunJoin(in)})
+		out.w.Flush()
+	}
 	if vfReplayOnly() {
 		return
 	}
@@ -731,6 +873,12 @@ func TestVerifC20(t *testing.T) {
 	n := vfN(300)
 	for i := 0; i < n; i++ {
 		r := root.Fork(i)
+		if i%4 == 3 { // a quarter of the cases: a watcher joining late / concurrently with applyConfig
+			jin := c20GenJoin(r, adv, vfTier())
+			out.Emit(vfCase{ID: fmt.Sprintf("join-%d-%d", vfSeed(), i), Src: src, Grp: "join", In: jin, Obs: c20RunJoin(jin)})
+			out.w.Flush()
+			continue
+		}
 		in := c20Gen(r, adv, vfTier())
 		if i%5 == 4 {
 			in.Mode = 1
